@@ -47,6 +47,9 @@ pub enum KOp {
 pub struct KbWorkload {
     pub initial: Vec<KOp>,
     pub threads: Vec<Vec<KOp>>,
+    /// 1: the four rule names differ only in case, white space or a trailing character
+    #[serde(default)]
+    pub names: u8,
 }
 
 /// observable outcome of an operation (order-insensitive where the API returns a hash-ordered collection)
@@ -64,8 +67,17 @@ pub enum Res {
     Stats { version: u64, total: usize, enabled: usize, disabled: usize, dist: BTreeMap<i32, usize> },
 }
 
+thread_local! {
+    /// naming style of the workload executing on this thread (KbWorkload::names)
+    static NAMES: std::cell::Cell<u8> = const { std::cell::Cell::new(0) };
+}
+
 fn rname(n: u8) -> String {
     // 0..=3: the four names every operation draws from; 4..: the bulk of a large knowledge base
+    // naming style 1: the four names differ only in case, white space or a trailing character
+    if NAMES.with(|x| x.get()) == 1 && n < 4 {
+        return ["rule", "Rule", "rule ", "rule1"][n as usize].to_string();
+    }
     format!("N{n}")
 }
 
@@ -248,6 +260,9 @@ pub fn linearizable(start: &Model, h: &[Event]) -> bool {
 
 pub fn scenario(w: &KbWorkload, slot: &Shared) {
     use shuttle::thread;
+    // (shuttle runs every task of an execution on the OS thread that called the runner, so a std thread-local
+    // set here is what the client tasks and the model see)
+    NAMES.with(|x| x.set(w.names));
     let kb = Arc::new(KnowledgeBase::new("kb"));
     let seq = Arc::new(AtomicU64::new(0)); // std atomic: no scheduling point
     let log: Arc<Mutex<Vec<Event>>> = Arc::new(Mutex::new(Vec::new()));
@@ -339,6 +354,12 @@ pub fn scenario(w: &KbWorkload, slot: &Shared) {
     if w.initial.len() > 20 {
         count(slot, "probe.large_knowledge_base");
     }
+    if w.initial.len() > 64 {
+        count(slot, "probe.knowledge_base_of_more_than_64_rules");
+    }
+    if w.names == 1 {
+        count(slot, "probe.names_that_differ_only_in_case_or_white_space");
+    }
     if h.iter().any(|e| matches!(e.op, KOp::CloneMutate { .. })) {
         count(slot, "probe.copy_of_the_knowledge_base_changed");
     }
@@ -390,7 +411,8 @@ pub fn generate(rng: &mut Rng, thorough: bool) -> KbWorkload {
     // one workload in twelve starts from a large knowledge base (21-40 further rules with salience ties):
     // sorting and index maintenance behave differently on long vectors than on four entries
     if rng.chance(1, 12) {
-        let n = 21 + rng.usize(20);
+        // (one large knowledge base in four holds more than 64 rules)
+        let n = if rng.chance(1, 4) { 65 + rng.usize(36) } else { 21 + rng.usize(20) };
         for i in 0..n {
             initial.push(KOp::Add { name: 4 + i as u8, sal: rng.below(3) as u8, uid: 1000 + i as u32 });
         }
@@ -401,11 +423,20 @@ pub fn generate(rng: &mut Rng, thorough: bool) -> KbWorkload {
         let at = rng.usize(threads[0].len() + 1);
         threads[0].insert(at, gen_grl(rng));
     }
-    KbWorkload { initial, threads }
+    // one workload in six (those without GRL text: what the GRL reader does to a name is not C15's business) uses
+    // names that differ only in case, white space or a trailing character
+    let has_grl = initial.iter().chain(threads.iter().flatten()).any(|o| matches!(o, KOp::AddGrl { .. }));
+    let names = if !has_grl && rng.chance(1, 6) { 1 } else { 0 };
+    KbWorkload { initial, threads, names }
 }
 
 pub fn shrink(w: &KbWorkload) -> Vec<KbWorkload> {
     let mut out = Vec::new();
+    if w.names != 0 {
+        let mut c = w.clone();
+        c.names = 0;
+        out.push(c);
+    }
     if w.threads.len() > 1 {
         for t in 0..w.threads.len() {
             let mut c = w.clone();
